@@ -201,6 +201,11 @@ def run_rt(ctx, prop, n_quick, n_thorough, gen_opts=None, with_edits=True):
         if r is not None:
             def sig(x):
                 d = x.get("diffs") or [[""]]
+                if "error" in x:
+                    # exceptions: class and the message without file names and line numbers
+                    import re as _re
+                    msg = [l for l in str(x.get("msg", "")).split("\n") if l.strip() and "mpverif_" not in l and "|" not in l]
+                    return (x["kind"], x["error"], _re.sub(r"\d+", "N", " ".join(msg))[:80])
                 return (x["kind"], str(d[0][0]), str(d[0][1]) if len(d[0]) > 1 else "")
 
             def failing(cc, want=sig(r)):
